@@ -43,6 +43,8 @@ function judge(c, resps) {
   }
   if (r.parse_error) return { engineError: 'generated history does not parse: ' + r.parse_error + ' :: ' + H.renderHistory(c.items, !!c.ts).slice(0, 300) };
   if (r.panic || r.died || r.hang || r.printed === undefined) return { skip: true };
+  // a history with an item for which the transform *must* report an error (await / yield in slot content) has no output program to judge once it did
+  if ((r.diags || []).some((d) => d.level === 'error') && c.items && c.items.some((it) => it.d && H.D[it.d].diag)) return { skip: true };
   const viol = [];
   const f = r.frame;
   if (!f || !f.ok) viol.push({ clause: 'frame', diff: f && f.error ? 'frame:error' : 'frame:different', msg: 'after erasing lowered JSX, generated declarations and defineComponent augmentations the output is not the input', expected: f && f.in, observed: f && (f.out || f.error) });
